@@ -32,7 +32,7 @@ PROPS = {
         "design_ref": "DESIGN.md section 4 C01, section 9",
     },
     "C02": {
-        "claim": "partial proof: the combination parser in brace mode (ParseIntoNodeTree with braces, as called by parseNestedStatementCombination) is modelled (Model/Combo.lean) and tied to the code by the brace part of the combo correspondence stream; for the model it is proved that a braced operator tree of any depth over nested statements `Sym{...}` (balanced parentheses, brackets only inside parentheses) is parsed into exactly the written tree with one leaf per nested statement - operators inside a component are not taken for statement-level operators - with and without the component symbol in front (`nested_combination_parser_round_trip`, `nested_combination_parser_with_symbol`), and chains of nested statements at any depth are re-bracketed to the left-nested tree (`nested_combination_chains`, `nested_combination_chains_with_symbol`); the identification of the component type under which a nested component is attached (parser.extractComponentType, no regular expression) is modelled too (Model/Header.lean, tied through the hook VerifExtractComponentType by the `ctype` stream: every table symbol x suffix x secondary suffix x annotation, plus fragment strings) and proved for every symbol of the regenerated table, every digit string as primary and secondary suffix and every annotation - which may itself contain symbols or the property marker - to return exactly the written type and property flag (`nested_header_type`, `nested_property_header_type`; the table tie is `component_symbol_table`); further theorems fix the specification of nesting (a nested statement is denoted by the same `denoteS` as a top-level one, attached under its symbol's complex field, conjoined or joined by the single written operator; combinations yield the written operator tree) and the regenerated nested-wiring table is proved equal to the specification's; agreement of parser.ParseStatement with that specification is decided by correspondence over generated nested ASTs to depth 3. Statement shapes outside the regex classifier's domain are an open known finding (C02-regex-shape)",
+        "claim": "partial proof: the combination parser in brace mode (ParseIntoNodeTree with braces, as called by parseNestedStatementCombination) is modelled (Model/Combo.lean) and tied to the code by the brace part of the combo correspondence stream; for the model it is proved that a braced operator tree of any depth over nested statements `Sym{...}` (balanced parentheses, brackets only inside parentheses) is parsed into exactly the written tree with one leaf per nested statement - operators inside a component are not taken for statement-level operators - with and without the component symbol in front (`nested_combination_parser_round_trip`, `nested_combination_parser_with_symbol`), and chains of nested statements at any depth are re-bracketed to the left-nested tree (`nested_combination_chains`, `nested_combination_chains_with_symbol`); the identification of the component type of a combination of nested statements and of each of its operands (parser.extractComponentType, no regular expression, called by parseNestedStatementCombination) is modelled too (Model/Header.lean, tied through the hook VerifExtractComponentType by the `ctype` stream: every table symbol x suffix x secondary suffix x annotation, plus fragment strings) and proved for every symbol of the regenerated table, every digit string as primary and secondary suffix and every annotation - which may itself contain symbols or the property marker - to return exactly the written type and property flag (`nested_header_type`, `nested_property_header_type`; the table tie is `component_symbol_table`); further theorems fix the specification of nesting (a nested statement is denoted by the same `denoteS` as a top-level one, attached under its symbol's complex field, conjoined or joined by the single written operator; combinations yield the written operator tree) and the regenerated nested-wiring table is proved equal to the specification's; agreement of parser.ParseStatement with that specification is decided by correspondence over generated nested ASTs to depth 3. Statement shapes outside the regex classifier's domain are an open known finding (C02-regex-shape)",
         "note": T_PARSER + "; the `supported` predicate (Spec/Shape.lean) delimits the shapes on which agreement is demanded; failures outside it are reported as KNOWN-FINDING",
         "rule": PARSE_RULE + "; generators produce both `supported` shapes (agreement demanded) and unsupported shapes (known-finding class)",
         "assumptions": ["Go regexp/strings behave as documented"],
